@@ -19,6 +19,10 @@ META = {
 ROLE = {"is_name_valid": "NAME", "from_str": "IDENT", "from_relative_str": "REL"}
 
 
+def fmt_c(c):
+    return " & ".join(("" if p else "!") + a for a, p in sorted(c)) or "true"
+
+
 def run(A, rep, tier):
     m = A.prog.module("task_identifier")
     regs = RX.compiled_regexes(A, m)
@@ -49,22 +53,31 @@ def run(A, rep, tier):
     ok = len(r) == 1 and isinstance(r[0].value, ast.Compare) and isinstance(r[0].value.ops[0], ast.IsNot) and norm(r[0].value.comparators[0]) == "None" \
         and norm(r[0].value.left).endswith("(%s)" % f.params[0])
     rep.check(ok, "RX1", "is_name_valid = match is not None", f.node, "", "is_name_valid does not return `<pattern>.match(candidate) is not None`")
+    from .selection import truth_table
     for fn in ("from_str", "from_relative_str"):
         f = A.fn(TI + fn)
         g = A.cfg(f, "plain")
-        ifs = [n for n in g.nodes if n.kind == "test" and norm(n.ast) == "match is None"]
-        ok = False
-        if ifs:
-            t_succ = [x for (x, l) in ifs[0].succ if l == "T"]
-            ok = all(isinstance(x.ast, ast.Raise) and "InvalidTaskIdentifier" in norm(x.ast) for x in t_succ) and bool(t_succ)
-            ok = ok and g.all_paths_pass(g.entry, g.exit, ifs)
-        rep.check(ok, "RX1", "%s rejects non-matches" % fn, f.node, "a failed match raises InvalidTaskIdentifier before anything is returned",
-                  "%s can return an identifier although the pattern did not match" % fn)
-    f = A.fn(TI + "from_str")
-    pref = [i for i in walk_local(f.node) if isinstance(i, ast.If) and "require_prefix" in norm(i.test)]
-    ok = len(pref) == 1 and A.dnf(pref[0].test, True, f) == [frozenset({("t(require_prefix)", True), ("t(candidate.startswith('//'))", False)})] \
-        and any(isinstance(x, ast.Raise) for x in pref[0].body)
-    rep.check(ok, "RX1", "require_prefix enforced", f.node, "", "from_str no longer rejects identifiers without // when require_prefix is set")
+        cand = f.params[1]
+        pairs = []
+        for n in g.nodes:
+            if n.kind == "stmt" and isinstance(n.ast, ast.Raise):
+                okr = n.ast.exc is not None and "InvalidTaskIdentifier" in norm(n.ast.exc)
+                for c in A.path_guards(g, g.entry, n, f):
+                    pairs.append((c, "raise" if okr else "raise-other"))
+            elif n.kind == "stmt" and isinstance(n.ast, ast.Return):
+                for c in A.path_guards(g, g.entry, n, f):
+                    pairs.append((frozenset(a for a in c if a[0] in ("none(match)", "t(require_prefix)", "t(%s.startswith('//'))" % cand)), "return"))
+        var_of = {"none(match)": "nomatch", "t(require_prefix)": "req", "t(%s.startswith('//'))" % cand: "pref"}
+        if fn == "from_str":
+            ref = lambda a: "raise" if (a["nomatch"] or (a["req"] and not a["pref"])) else "return"
+        else:
+            ref = lambda a: "raise" if a["nomatch"] else "return"
+            var_of = {"none(match)": "nomatch"}
+        mism, n_asg = truth_table(pairs, var_of, ref)
+        rep.check(mism is None, "RX1", "%s rejects exactly the non-matches%s" % (fn, " and missing // prefixes" if fn == "from_str" else ""), f.node,
+                  "InvalidTaskIdentifier iff the pattern did not match%s (%d assignments)" % (" or require_prefix ∧ no leading //" if fn == "from_str" else "", n_asg), mism or "")
+        mv = A.single_def_value(f, "match")
+        rep.check(mv is not None and isinstance(mv, ast.Call) and len(mv.args) == 1 and norm(mv.args[0]) == cand, "RX1", "%s matches its argument" % fn, f.node, "", "the pattern is not applied to the candidate string", deep=False)
 
     # RX2 alphabet facts
     if name_pat is None:
@@ -110,13 +123,20 @@ def run(A, rep, tier):
               "repr = '//' + '/'.join(path.parts) + ':' + name", "__repr__ is `%s`" % (norm(r[0].value) if r else "?"))
     fs = A.fn(TI + "from_str")
     r = [x for x in walk_local(fs.node) if isinstance(x, ast.Return)]
-    ok = len(r) == 1 and norm(r[0].value) == "cls(path=path, name=match.group('name'))"
-    pv = [norm(d.value) for d in A.defs(fs, "path") if isinstance(d, ast.Assign)]
-    ok = ok and sorted(pv) == sorted(["pathlib.Path()", "pathlib.Path(*filter(lambda s: len(s) > 0, path_str.split('/')))"])
-    ps = A.single_def_value(fs, "path_str")
-    ok = ok and ps is not None and norm(ps) == "match.group('path')"
-    rep.check(ok, "RT-P", "parse form", fs.node, "parse splits the path group on '/' dropping only empty segments",
-              "from_str builds the identifier differently: path from %s" % pv)
+    ok = len(r) == 1 and isinstance(r[0].value, ast.Call) and norm(r[0].value.func) == "cls"
+    det = "from_str does not return cls(path=…, name=match.group('name'))"
+    if ok:
+        kw = {k.arg: k.value for k in r[0].value.keywords}
+        okn = "name" in kw and norm(kw["name"]) == "match.group('name')"
+        pv = A.rvalues(fs, kw.get("path", ast.Constant(None)), r[0], keep=lambda a: a.startswith("none(") and a != "none(match)", depth=2, calls=True)
+        pv = [(c, v.replace("match.group('path')", "path_str")) for c, v in pv]
+        pv = [(frozenset((a.replace("match.group('path')", "path_str"), p_) for a, p_ in c), v) for c, v in pv]
+        alt = {(frozenset({("none(path_str)", True)}), "pathlib.Path()"),
+               (frozenset({("none(path_str)", False)}), "pathlib.Path(*(_v0 for _v0 in path_str.split('/') if len(_v0) > 0))")}
+        ps = A.single_def_value(fs, "path_str")
+        ok = okn and set(pv) == alt and (ps is None or norm(ps) == "match.group('path')")
+        det = "from_str builds the path as %s" % [(fmt_c(c), v) for c, v in pv]
+    rep.check(ok, "RT-P", "parse form", fs.node, "parse splits the path group on '/' dropping only empty segments", det)
     # REL1
     mt = A.fn("parsing.task_index.TaskIndex._materialize_raw_task")
     ident = mt.params[1]
